@@ -25,6 +25,8 @@ int vs_join(pthread_t, void **);
 #endif
 /* harness API */
 void vs_config(int mode, int post_unlock_yield, int npreempt, long horizon, unsigned long seed);
+void vs_decisions(int n, const long *steps, const int *choices, int policy);   /* systematic mode: preempt only at these steps */
+extern int vs_decision_invalid;
 void vs_begin(unsigned long seed, int spurious_pct);   /* registers calling thread as thread 0 */
 int  vs_end(void);                                       /* returns number of scheduling steps */
 extern int vs_deadlock;                                  /* set when no thread is enabled */
